@@ -263,6 +263,21 @@ pub fn contexts() -> Vec<Ctx> {
         // references from inside a nested group to an OUTER group that is still open, in a loop
         ("(?:((X|a)b)c)+", Box::new(move |x| Repeat(b(Concat(vec![Node::group(Concat(vec![Node::group(Alt(vec![x, la()])), lb()])), Node::lit("c")])), 1, None, Mode::Greedy))),
         ("(?:a((X)|))+", Box::new(move |x| Repeat(b(Concat(vec![la(), Node::group(Alt(vec![Node::group(x), Empty]))])), 1, None, Mode::Greedy))),
+        // capture groups in BOTH branches of a conditional (numbering must follow the text order)
+        ("(?(X)(a)|(b))", Box::new(move |x| CondExpr(b(x), b(Node::group(la())), b(Node::group(lb()))))),
+        ("(?:(X))?(?(1)(a)|(b))\\3?", Box::new(move |x| Concat(vec![Repeat(b(Node::group(x)), 0, Some(1), Mode::Greedy), CondGroup(1, b(Node::group(la())), b(Node::group(lb()))), Repeat(b(Backref(3)), 0, Some(1), Mode::Greedy)]))),
+        ("(?(X)(a)|(.))(?:\\1|\\2)", Box::new(move |x| Concat(vec![CondExpr(b(x), b(Node::group(la())), b(Node::group(Any(false)))), Alt(vec![Backref(1), Backref(2)])]))),
+        // look-behind alternations with three alternatives of sizes s, t, s and groups: the
+        // alternatives must be tried in the order written
+        ("(?<=(X)|bb|(.))", Box::new(move |x| Look(b(Alt(vec![Node::group(x), Node::lit("bb"), Node::group(Any(false))])), true, false))),
+        ("(?<=a|(X)|(b))c?", Box::new(move |x| Concat(vec![Look(b(Alt(vec![la(), Node::group(x), Node::group(lb())])), true, false), Repeat(b(Node::lit("c")), 0, Some(1), Mode::Greedy)]))),
+        ("(?<=(a)b|(X)|(b)b)", Box::new(move |x| Look(b(Alt(vec![Concat(vec![Node::group(la()), lb()]), Node::group(x), Concat(vec![Node::group(lb()), lb()])])), true, false))),
+        // atomic groups nested three deep around loops (undo records folded into shallower frames)
+        ("(?>(?>(?>X)+)+)", Box::new(move |x| Atomic(b(Repeat(b(Atomic(b(Repeat(b(Atomic(b(x))), 1, None, Mode::Greedy)))), 1, None, Mode::Greedy))))),
+        ("(?>(?>(?>X)+b?)+)a", Box::new(move |x| Concat(vec![Atomic(b(Repeat(b(Atomic(b(Concat(vec![Repeat(b(Atomic(b(x))), 1, None, Mode::Greedy), Repeat(b(lb()), 0, Some(1), Mode::Greedy)])))), 1, None, Mode::Greedy))), la()]))),
+        // a positive look-around inside a counted repeat inside a look-behind
+        ("((?<=(?:(?=X)[ab]){2}))", Box::new(move |x| Node::group(Look(b(Repeat(b(Concat(vec![Look(b(x), false, false), Node::class("[ab]")])), 2, Some(2), Mode::Greedy)), true, false)))),
+        ("(?<=(?:(?=X)a){2})b?", Box::new(move |x| Concat(vec![Look(b(Repeat(b(Concat(vec![Look(b(x), false, false), la()])), 2, Some(2), Mode::Greedy)), true, false), Repeat(b(lb()), 0, Some(1), Mode::Greedy)]))),
         // an optional group that ends in a negative look-around (its Split branch and the
         // look-around's own branch sit next to each other on the stack)
         ("a(?:X|(?!b))?b", Box::new(move |x| Concat(vec![la(), Repeat(b(Alt(vec![x, Look(b(lb()), false, true)])), 0, Some(1), Mode::Greedy), lb()]))),
